@@ -306,14 +306,15 @@ class Check:
         self.skipped[reason] = self.skipped.get(reason, 0) + n
 
     def sample(self, s):
-        # reservoir-ish: keep first 3 and a few random later ones
-        if len(self.samples) < 3:
+        # uniform reservoir over all offered samples (Hypothesis starts with the
+        # simplest cases, so "the first few" would be uninformative)
+        self.nsamp = getattr(self, "nsamp", 0) + 1
+        if len(self.samples) < self.sample_budget:
             self.samples.append(s)
-        elif len(self.samples) < self.sample_budget:
-            if self.rng.random() < 0.02:
-                self.samples.append(s)
-        elif self.rng.random() < 0.002:
-            self.samples[3 + self.rng.randrange(self.sample_budget - 3)] = s
+        else:
+            j = self.rng.randrange(self.nsamp)
+            if j < self.sample_budget:
+                self.samples[j] = s
 
     def run(self, stmts, timeout=None):
         if self.drv is None:
